@@ -20,7 +20,9 @@ func evalC01(src []byte, cfg string) (o Outcome) {
 	for _, vs := range strings.Split(cfg, ",") {
 		a, b := parseVer(vs)
 		for _, cb := range []bool{true, false} {
-			buf := append([]byte(nil), orig...)
+			// the caller's buffer: the input followed by spare capacity (guard bytes that belong to the caller too)
+			whole := append(append(make([]byte, 0, len(orig)+8), orig...), 0xA5, 0x5A, '<', '?', 'p', 'h', 'p', ' ')
+			buf := whole[:len(orig)]
 			po := parseSafe(buf, ver(a, b), cb)
 			c := vs + "/cb"
 			if !cb {
@@ -33,6 +35,9 @@ func evalC01(src []byte, cfg string) (o Outcome) {
 			}
 			if !bytes.Equal(buf, orig) {
 				o.Fails = append(o.Fails, Failure{Site: "buffer-modified", Kind: "input", Config: c, Detail: "input buffer changed by Parse"})
+			}
+			if !bytes.Equal(whole[len(orig):len(orig)+8], []byte{0xA5, 0x5A, '<', '?', 'p', 'h', 'p', ' '}) {
+				o.Fails = append(o.Fails, Failure{Site: "buffer-modified:beyond-len", Kind: "input", Config: c, Detail: "Parse wrote into the spare capacity behind the input slice (the caller's backing array)"})
 			}
 			if po.Err != nil {
 				o.Fails = append(o.Fails, Failure{Site: "parse-error-return", Kind: "input", Config: c, Detail: "Parse returned error for a supported version: " + po.Err.Error()})
